@@ -1439,6 +1439,8 @@ pub fn prepare_tokens(source: &[PreprocessToken]) -> Vec<LexToken> {
         .iter()
         .cloned()
         .filter_map(|t| {
+            #[cfg(feature = "verif-hooks")]
+            rssl_text::verif::tick(6);
             assert!(!matches!(t.0, Token::MacroArg(_)));
             if t.0.is_whitespace() {
                 None
